@@ -798,12 +798,16 @@ def exclusion_rules(chk, cr, evs):
                found=("inside the loop under " + str([str(c)[:50] for c, p in false_ev[1].guards][-1:])) if false_ev and not final else None)
         # order: the False store comes after the True store inside the same loop body so own atoms stay excluded
         rets = ev.returns if q != "functional_group_surroundings" else [e for e in ev.events if e.kind == "call" and e.target is not None and e.target.key().endswith(".append") and "keep" in e.value.key()]
-        okk = False
-        for e in rets:
+        okk = bool(rets)
+        badret = None
+        for e in rets:          # every exit (a shortcut for special centres included) hands out the masked arrays
             v = e.value if e.kind == "return" else e.extra["args"][0]
             subs = [a for a in find_atoms(v, lambda a: a[0] == "sub" and len(a[2]) == 1 and a[2][0].as_atom()
                                           and a[2][0].as_atom()[0] == "obj" and a[2][0].as_atom()[1] == "keep")]
             roots = {a[1].key()[-22:] for a in subs}
-            okk = len(subs) >= 2 and any("['element']" in r for r in roots) and any("['cart_pos']" in r for r in roots)
-        chk.ob("R03.5", CR, "Crystal." + q, "reported elements and positions are both filtered by the keep mask", okk,
-               fingerprint="filter")
+            if not (len(subs) >= 2 and any("['element']" in r for r in roots) and any("['cart_pos']" in r for r in roots)):
+                okk = False
+                badret = badret or e
+        chk.ob("R03.5", CR, "Crystal." + q, "reported elements and positions are both filtered by the keep mask on every exit", okk,
+               fingerprint="filter", node=badret.node if badret is not None else None,
+               found=str(badret.value)[:160] if badret is not None and badret.kind == "return" else None)
